@@ -136,6 +136,7 @@ type agg struct {
 	perProfile map[string]int
 	schedHash  map[uint64]bool
 	states     map[uint64]bool
+	sweepRun   int
 	trans      map[uint64]bool
 	firstSeed  uint64
 	lastSeed   uint64
@@ -344,6 +345,9 @@ func (a *agg) add(res Result, jobs []Job) {
 	a.draws += res.Draws
 	a.wallUS += res.WallUS
 	a.perProfile[res.Profile]++
+	if res.Sweep {
+		a.sweepRun++
+	}
 	if a.evals == 1 {
 		a.firstSeed = res.Seed
 	}
